@@ -4,6 +4,7 @@ go 1.17
 
 require (
 	github.com/cloudwego/dynamicgo v0.0.0
+	github.com/cloudwego/gopkg v0.0.0-20240731030152-5e0df5ad4e40
 	github.com/jhump/protoreflect v1.8.2
 	google.golang.org/protobuf v1.33.0
 )
@@ -13,7 +14,6 @@ require (
 	github.com/bytedance/sonic v1.13.1 // indirect
 	github.com/bytedance/sonic/loader v0.2.4 // indirect
 	github.com/cloudwego/base64x v0.1.5 // indirect
-	github.com/cloudwego/gopkg v0.0.0-20240731030152-5e0df5ad4e40 // indirect
 	github.com/cloudwego/thriftgo v0.3.6 // indirect
 	github.com/davecgh/go-spew v1.1.2-0.20180830191138-d8f796af33cc // indirect
 	github.com/fatih/structtag v1.2.0 // indirect
